@@ -9,6 +9,8 @@ pub mod convert;
 mod lex;
 pub mod lossless;
 pub mod lossy;
+#[cfg(feature = "verif-hooks")]
+pub mod verif;
 pub use convert::{FromDeb822Paragraph, ToDeb822Paragraph};
 #[cfg(feature = "derive")]
 pub use deb822_derive::{FromDeb822, ToDeb822};
